@@ -808,6 +808,15 @@ def replaceNonesWithNonsense(
                 if realType is type(None):
                     continue
 
+                if (
+                    realType is not bool
+                    and issubclass(realType, (int, np.integer))
+                    and any(isinstance(d, (float, np.floating)) for d in data)
+                ):
+                    # integers mixed with reals: store as reals (as np.array() would), do
+                    # not truncate the reals to the type of the first entry
+                    realType = float
+
                 defaultValue = NONE_MAP[realType]
                 break
         else:
